@@ -55,13 +55,14 @@ def explore(ck: Check, n_tables: int, slow_formats: bool) -> None:
                     results[label] = err_enum(ex) + ": " + str(ex)[:60]
 
             # --- delimited and spreadsheet formats: suffix selects the reader, heading row is the schema
-            p = tdp / f"t{i}.csv"
+            stem = f"t{i}" if i % 4 else f"t{i}.v2"      # a dotted stem: the LAST suffix alone selects the reader
+            p = tdp / f"{stem}.csv"
             write_csv(p, t)
             run("csv", lambda: observe_heading(open_workbook(p)))
             p_tab = tdp / f"t{i}.tab"
             write_csv(p_tab, t, delimiter="\t")
             run("tab", lambda: observe_heading(CSV_Workbook(p_tab, delimiter="\t")))
-            p_x = tdp / f"t{i}.xlsx"
+            p_x = tdp / f"{stem}.xlsx"
             write_xlsx(p_x, {"First": t, "Second": second})
             run("xlsx", lambda: observe_heading(open_workbook(p_x)))
             if slow_formats or i % 8 == 0:
@@ -72,7 +73,7 @@ def explore(ck: Check, n_tables: int, slow_formats: bool) -> None:
                 write_numbers(p_n, {"First": t, "Second": second})
                 run("numbers", lambda: observe_heading(open_workbook(p_n), canon_sheet=lambda s: s.split("::")[0]))
             # --- NDJSON: rows as objects, schema supplied
-            p_j = tdp / f"t{i}.ndjson"
+            p_j = tdp / f"{stem}.ndjson"
             write_ndjson(p_j, t)
             jschema = SchemaMaker.from_json({"type": "object", "properties": {h: {"type": "string"} for h in t[0]}})
             run("ndjson", lambda: observe_with_schema(open_workbook(p_j), jschema, t[0]))
